@@ -54,6 +54,8 @@ type CompileRun struct {
 	Par     int      `json:"par"`
 	Request []string `json:"request"` // requested names in order (may repeat)
 	Symbols bool     `json:"symbols"` // supply a fresh symbol table instead of nil
+	// RetainASTs: keep the ASTs in the results (must not change any descriptor)
+	RetainASTs bool `json:"retain_asts,omitempty"`
 }
 
 type compileResult struct {
